@@ -2,7 +2,7 @@
 # try_patch.sh [-R] <patch.diff> <Cxx> [Cxx...] : apply patch to /repo, run the checks, undo. Prints verdict per check.
 rev=""
 if [ "$1" = "-R" ]; then rev="-R"; shift; fi
-patch=$1; shift
+patch=$(readlink -f "$1"); shift
 cd /repo || exit 2
 if [ -n "$(git status --porcelain --untracked-files=no)" ]; then echo "repo not clean"; exit 2; fi
 git apply $rev "$patch" || { echo "patch does not apply"; exit 2; }
